@@ -28,6 +28,18 @@ def guard_between(ctx, left_text: str, right_text: str):
     return out
 
 
+def local_from(fn, pred):
+    """Names of locals whose (some) defining expression satisfies pred(expr)."""
+    out = []
+    for s in sites(fn):
+        n = s.node
+        if isinstance(n, (ast.Assign, ast.AnnAssign)) and n.value is not None:
+            t = n.targets[0] if isinstance(n, ast.Assign) else n.target
+            if isinstance(t, ast.Name) and pred(n.value) and t.id not in out:
+                out.append(t.id)
+    return out
+
+
 def check(repo: Repo, rep: Report) -> None:
     rep.explanation = (
         "Structural clauses of virtual-time ordering: ScheduledItem orders by due time only and the priority queue "
@@ -53,9 +65,10 @@ def check(repo: Repo, rep: Report) -> None:
         rets = [s.node.value for s in sites(m) if isinstance(s.node, ast.Return) and s.node.value is not None
                 and not (isinstance(s.node.value, ast.Name) and s.node.value.id == "NotImplemented")]
         ok = bool(rets)
+        want = {ast.Lt: "<", ast.Gt: ">", ast.Eq: "=="}[op]
         for v in rets:
-            ok = ok and isinstance(v, ast.Compare) and len(v.ops) == 1 and isinstance(v.ops[0], op) \
-                and u(v.left) == "self.duetime" and u(v.comparators[0]) == f"{oth}.duetime"
+            r = compare_norm(v, lambda x: u(x) == "self.duetime")
+            ok = ok and r is not None and r[0] == want and u(r[1]) == f"{oth}.duetime"
         rep.ob("O1-item-order", m, mname, ok, f"ScheduledItem.{mname} does not compare `self.duetime` with `other.duetime` "
                                             f"using the operator of its name: the queue order is not the due-time order")
     # O2
@@ -138,7 +151,8 @@ def check(repo: Repo, rep: Report) -> None:
     n_writes = 0
     for mname in ("start", "advance_to", "sleep"):
         m = repo.fn(V, f"VirtualTimeScheduler.{mname}")
-        target = None
+        items = local_from(m, lambda e: u(e) in ("self._queue.peek()", "self._queue.dequeue()"))
+        targets = local_from(m, lambda e: isinstance(e, ast.Call) and dotted(e.func) == "self.to_datetime")
         for s in sites(m):
             n = s.node
             is_w = False
@@ -155,7 +169,7 @@ def check(repo: Repo, rep: Report) -> None:
                         isinstance(k.value, ast.Constant) and k.value.value > 0 for k in n.value.keywords)
                     and all(isinstance(a, ast.Constant) and a.value > 0 for a in n.value.args)
                     and (n.value.args or n.value.keywords))
-                rep.ob("M1-clock-monotone", m, f"{mname}: {short(n)}", bool(pos),
+                rep.ob("M1-clock-monotone", m, f"{mname}: clock += {short(n.value)}", bool(pos),
                        "the clock is changed by something other than a positive increment")
                 continue
             if not is_w:
@@ -164,38 +178,46 @@ def check(repo: Repo, rep: Report) -> None:
             vt = u(val)
             src = None
             for cand in ast.walk(val):
-                if isinstance(cand, (ast.Attribute, ast.Name)) and u(cand) in ("item.duetime", "dt"):
-                    src = u(cand)
+                if isinstance(cand, ast.Attribute) and cand.attr == "duetime" and isinstance(cand.value, ast.Name) and cand.value.id in items:
+                    src = ("item", u(cand))
+                elif isinstance(cand, ast.Name) and cand.id in targets:
+                    src = ("target", cand.id)
+            form = "item.duetime" if src and src[0] == "item" else ("target" if src else vt)
+            conv = "to_seconds(...)" if isinstance(val, ast.Call) else "direct"
+            c = f"{mname}: clock = {form} [{conv}]"
             if s.ctx.loops:
-                ops = guard_between(s.ctx, "item.duetime", "self.now")
-                ok = src == "item.duetime" and any(o in (">", ">=") for o in ops)
-                rep.ob("M1-clock-monotone", m, f"{mname}: {short(n)}", ok,
+                ops = guard_between(s.ctx, src[1], "self.now") if src and src[0] == "item" else []
+                ok = bool(src) and src[0] == "item" and any(o in (">", ">=") for o in ops)
+                rep.ob("M1-clock-monotone", m, c, ok,
                        "inside the run loop the clock is set without `item.duetime > now` dominating the write, or to "
                        "something other than the due time of the item about to run: the clock can move backwards / "
                        "an action runs at a clock different from its due time")
             else:
-                ops = guard_between(s.ctx, "self.now", src or "?")
-                ok = src is not None and any(o in ("<=", "<", "==") for o in ops)
-                rep.ob("M1-clock-monotone", m, f"{mname}: {short(n)}", ok,
-                       f"the clock is set to `{vt}` without a dominating guard that `self.now <= {src}` "
-                       f"(`if self.now > {src}: raise`): time could move backwards")
+                ops = guard_between(s.ctx, "self.now", src[1]) if src and src[0] == "target" else []
+                ok = bool(src) and src[0] == "target" and any(o in ("<=", "<", "==") for o in ops)
+                rep.ob("M1-clock-monotone", m, c, ok,
+                       f"the clock is set to `{vt}` without a dominating guard that `self.now <= target` "
+                       f"(`if self.now > target: raise`): time could move backwards")
     rep.require(n_writes >= 6, f"clock writes found ({n_writes})")
     # A1
     adv = repo.fn(V, "VirtualTimeScheduler.advance_to")
+    items = local_from(adv, lambda e: u(e) in ("self._queue.peek()", "self._queue.dequeue()"))
+    targets = local_from(adv, lambda e: isinstance(e, ast.Call) and dotted(e.func) == "self.to_datetime")
+    rep.require(items and targets, "item / target locals in advance_to")
     deqs = [s for s in sites(adv) if isinstance(s.node, ast.Call) and dotted(s.node.func) == "self._queue.dequeue"]
     rep.require(deqs, "dequeue in advance_to")
     for s in deqs:
-        ops = guard_between(s.ctx, "item.duetime", "dt")
-        rep.ob("A1-advance-bounds", adv, short(s.node), "<=" in ops,
+        ops = [o for it in items for tg in targets for o in guard_between(s.ctx, f"{it}.duetime", tg)]
+        rep.ob("A1-advance-bounds", adv, "dequeue only under item.duetime <= target", "<=" in ops,
                f"advance_to removes an item without `item.duetime <= target` dominating (found {ops}): it runs actions "
                f"beyond the target or skips the ones due exactly at the target")
         peeks = [x for x in sites(adv) if isinstance(x.node, ast.Assign) and u(x.node.value) == "self._queue.peek()"
-                 and u(x.node.targets[0]) == "item" and x.index < s.index and x.ctx.loops == s.ctx.loops]
+                 and u(x.node.targets[0]) in items and x.index < s.index and x.ctx.loops == s.ctx.loops]
         rep.ob("A1-advance-bounds", adv, "item = self._queue.peek() precedes the dequeue in the same iteration", bool(peeks),
                "the item that is tested is not the one that is removed")
     finals = [s for s in sites(adv) if not s.ctx.loops and isinstance(s.node, ast.Assign)
               and any(u(t) == "self._clock" for t in s.node.targets)]
-    ok = bool(finals) and all(any(u(x) == "dt" for x in ast.walk(s.node.value)) for s in finals)
+    ok = bool(finals) and all(any(isinstance(x, ast.Name) and x.id in targets for x in ast.walk(s.node.value)) for s in finals)
     rep.ob("A1-advance-bounds", adv, "clock = target after the loop", ok, "advance_to does not leave the clock at the target")
     sl = repo.fn(V, "VirtualTimeScheduler.sleep")
     bad = [s for s in sites(sl) if isinstance(s.node, ast.Call) and isinstance(s.node.func, ast.Attribute)
